@@ -197,7 +197,7 @@ func checkC10(c c10Case) error {
 	rnd := refcose.NewEntropy([]byte("c10"))
 
 	// (1) what a countersigner's key is handed when signing over this parent
-	spy := &bridge.SpySigner{Alg: cose.Algorithm(alg)}
+	spy := &bridge.SpySigner{Alg: cose.Algorithm(alg), Reenter: reenterLibrary}
 	var signProt []byte // content of the countersigner's protected bstr, as the reference expects it
 	var cs *cose.Countersignature
 	if c.Abbrev {
@@ -237,6 +237,9 @@ func checkC10(c c10Case) error {
 			return nil
 		}
 	}
+	if spy.Corrupted {
+		return finding("tbs-unstable-while-in-use", "%s: the bytes handed to the countersigner changed while it was still using them (another library operation ran in between)", p.path)
+	}
 	want := gen.CountersignTBS(p.ref, c.Abbrev, signProt, ext)
 	if spy.NCalls() != 1 || !bytes.Equal(spy.Last(), want) {
 		return finding("tbs-mismatch", "%s (%v parent, pointer=%v, abbreviated=%v): signer was handed\n got=%x\nwant=%x\nwire=%x", p.path, p.kind, c.Pointer, c.Abbrev, spy.Last(), want, []byte(c.W.Wire))
@@ -256,11 +259,14 @@ func checkC10(c c10Case) error {
 			continue
 		}
 		if g.Abbrev() {
-			sv := &bridge.SpyVerifier{Alg: cose.Algorithm(g.Items[0].Key.Alg)}
+			sv := &bridge.SpyVerifier{Alg: cose.Algorithm(g.Items[0].Key.Alg), Reenter: reenterLibrary}
 			if err := cose.VerifyCountersign0(sv, p.obj(gi%2 == 0), g.Items[0].External, v.([]byte)); err != nil {
 				return finding("spy-verify-error", "%s: VerifyCountersign0 with an accepting verifier fails: %v", p.path, err)
 			}
 			w := gen.CountersignTBS(p.ref, true, []byte{}, g.Items[0].External)
+			if sv.Corrupted {
+				return finding("tbs-unstable-while-in-use", "%s: bytes handed to the verifier of an abbreviated countersignature changed while in use", p.path)
+			}
 			if !bytes.Equal(sv.Last().Content, w) || !bytes.Equal(sv.Last().Sig, node.Content) {
 				return finding("tbs-mismatch", "%s: verifier of abbreviated countersignature %d was handed\n got=%x\nwant=%x", p.path, g.Label, sv.Last().Content, w)
 			}
@@ -284,11 +290,14 @@ func checkC10(c c10Case) error {
 				continue
 			}
 			it := g.Items[i]
-			sv := &bridge.SpyVerifier{Alg: cose.Algorithm(it.Key.Alg)}
+			sv := &bridge.SpyVerifier{Alg: cose.Algorithm(it.Key.Alg), Reenter: reenterLibrary}
 			if err := list[i].Verify(sv, p.obj(i%2 == 0), it.External); err != nil {
 				return finding("spy-verify-error", "%s: Countersignature.Verify with an accepting verifier fails: %v", p.path, err)
 			}
 			w := gen.CountersignTBS(p.ref, false, ce.ProtContent(), it.External)
+			if sv.Corrupted {
+				return finding("tbs-unstable-while-in-use", "%s: bytes handed to the verifier of a countersignature changed while in use", p.path)
+			}
 			if !bytes.Equal(sv.Last().Content, w) || !bytes.Equal(sv.Last().Sig, ce.Sig.Content) {
 				return finding("tbs-mismatch", "%s: verifier of countersignature %d[%d] was handed\n got=%x\nwant=%x", p.path, g.Label, i, sv.Last().Content, w)
 			}
